@@ -10,12 +10,15 @@
 EXTENDS Integers, Sequences, FiniteSets, TLC, Json, IOUtils, SequencesExt
 
 AllCombos == {{"code"}, {"token"}, {"id_token"}, {"code", "token"}, {"code", "id_token"}, {"id_token", "token"}, {"code", "id_token", "token"}}
-RegTypes == { AllCombos, {{"code"}}, {{"token"}}, {{"code", "id_token"}, {"code"}}, {{"id_token", "token"}, {"id_token"}} }
+RegTypes == { AllCombos, {{"code"}}, {{"token"}}, {{"code", "id_token"}, {"code"}}, {{"id_token", "token"}, {"id_token"}},
+              {{"code", "id_token", "token"}}, {{"code", "token"}} }      \* one large combination only: its subsets are NOT registered
 RegModes == { "none", "all", "fragment_only" }      \* none: the client does not implement ResponseModeClient
 RegGrants == { "all", "no_implicit", "no_code" }
 ReqTypes == { <<"code">>, <<"token">>, <<"id_token">>, <<"code", "token">>, <<"token", "code">>, <<"code", "id_token">>,
               <<"id_token", "token">>, <<"code", "id_token", "token">>, <<"token", "id_token", "code">>, <<"code", "code">>,
-              <<"bogus">>, <<"code", "bogus">>, <<>> }
+              <<"bogus">>, <<"code", "bogus">>, <<>>,
+              \* an unregistered subset padded with a repeated value to the length of a registered combination
+              <<"id_token", "token", "token">>, <<"token", "token">>, <<"code", "token", "code">> }
 ReqModes == {"", "query", "fragment", "form_post", "bogus"}
 
 HasGrant(g, x) == g = "all" \/ (g = "no_implicit" /\ x # "implicit") \/ (g = "no_code" /\ x # "authorization_code")
